@@ -1090,3 +1090,10 @@ MUTANTS.append({"id": "C14-forced-types-through-identity-ordered-set", "prop": "
   "edits": [("src/interrogate/interrogateBuilder.cxx", "  // First, get all the types that were explicitly forced.\n  Commands::const_iterator ci;",
              "  // First, get all the types that were explicitly forced.\n  std::set<CPPType *, CPPTypeCompare> forced_types;\n  Commands::const_iterator ci;"),
             ("src/interrogate/interrogateBuilder.cxx", "    assert(type != nullptr);\n    get_type(type, true);\n  }", "    assert(type != nullptr);\n    forced_types.insert(type);\n  }\n  for (CPPType *type : forced_types) {\n    get_type(type, true);\n  }")]})
+
+M("C19-string-payload-through-streambuf", "C19", "src/interrogatedb/interrogate_datafile.cxx",
+  "  out << str.length() << whitespace;\n  if (!str.empty()) {\n    out << str << whitespace;", "  out << str.length() << whitespace;\n  if (!str.empty()) {\n    out.rdbuf()->sputn(str.data(), str.length());\n    out << whitespace;",
+  expect="R19.b|idf_output_string|sputn")
+M("C12-benign-string-payload-write", "C12", "src/interrogatedb/interrogate_datafile.cxx",
+  "  out << str.length() << whitespace;\n  if (!str.empty()) {\n    out << str << whitespace;", "  out << str.length() << whitespace;\n  if (!str.empty()) {\n    out.write(str.data(), str.size());\n    out << whitespace;",
+  benign=True)
